@@ -148,7 +148,10 @@ PLAN = {
         modules=['c16_isnull', 'c13_bounds', 'c14_measures', 'c15_orient', 'c02_point', 'c01_box', 'c01_lines', 'c01_polys', 'glue_rep', 'glue_polygon', 'glue_wrappers', 'glue_take', 'glue_fixed'], level='other', stages=[RTC],
         trusted_base=COMMON_TRUST, assumptions=[RTC_NOTE],
         explanation="proved: _perform_extract_isnull_bytemap (bit (offset+i) of the validity bitmap, for every offset), the "
-                    "buffer layer, GeometryArray.take (index validation / normalisation, error cases), the length / area / "
+                    "buffer layer, GeometryArray.take (index validation / normalisation, error cases), GeometryArray.__getitem__ "
+                    "for slice keys with step None / 1 (the window python's slice semantics define, start after stop = empty, "
+                    "relative to the assumed pyarrow __getitem__(slice) / slice(offset, length) contracts whose "
+                    "preconditions are obligations at the call), the length / area / "
                     "intersects_bounds / bounds wrappers over the abstract view (results depend on element values only, for "
                     "every array offset); __getitem__ / concat / copy / pickle / iteration and view-determinacy end to end by "
                     "the run-time checked contract over random derivation histories (bounded)",
